@@ -89,6 +89,11 @@ theorem all_methods_are_front_ends :
     (∀ m ∈ loggerMethods, userFrontEnd (.logger m.1) = true) ∧ (∀ m ∈ sugarMethods, userFrontEnd (.sugar m.name) = true) := by
   constructor <;> decide
 
+/-- the remaining exported SugaredLogger methods produce no entry of their own (a logging method that delegated
+    through another exported method would show up here instead of in `sugarMethods`) -/
+theorem non_logging_methods :
+    sugarNonLogging = ["Desugar", "Level", "Named", "Sync", "With", "WithLazy", "WithOptions"] := by decide
+
 /-- the diagnostics `sweetenFields` issues about ill-formed arguments are attributed to the user's call as well, under
     With/WithLazy and under the `*w` methods -/
 theorem diag_caller_is_user (ds : List Deriv) (l : Logger) (hrun : run ds {} = some l) (hs : l.sugared = true)
@@ -128,7 +133,7 @@ theorem stack_starts_at_caller (callerSkip : Int) (slab : Nat) (st : List F) (c 
     (h : (annotate callerSkip true true slab st).caller = some c) :
     ∃ rest, (annotate callerSkip true true slab st).stack = some (c :: rest) := by
   unfold annotate at h ⊢
-  simp only [Bool.not_eq_true, and_self, Bool.true_eq_false, ↓reduceIte] at h ⊢
+  simp only [and_self, ↓reduceIte] at h ⊢
   cases hc : capture st (callerSkip + callerSkipOffset).toNat true slab with
   | none => simp [hc] at h
   | some fr =>
@@ -206,6 +211,42 @@ theorem slog_stack_starts_at_user (w : Nat) (addCaller : Bool) (rec : Option F) 
   have hd := drop_structured pre lib ws user (outer ++ [last]) _ hn
   simp only [slogHandle, take, ↓reduceIte, capture_full _ _ _ hslab, hd, Option.map_some]
   simp [formatStack, List.dropLast_cons_of_ne_nil]
+
+/-! ## path trimming (zapcore.EntryCaller.TrimmedPath) -/
+
+theorem lastIndexOf_none (b : UInt8) (s : Bytes) (h : b ∉ s) : lastIndexOf b s = none := by
+  induction s with
+  | nil => rfl
+  | cons c r ih =>
+    have hc : c ≠ b := fun e => h (e ▸ List.mem_cons_self)
+    have hr : b ∉ r := fun m => h (List.mem_cons_of_mem _ m)
+    simp [lastIndexOf, ih hr, hc]
+
+theorem lastIndexOf_sep (b : UInt8) (x y : Bytes) (h : b ∉ y) : lastIndexOf b (x ++ b :: y) = some x.length := by
+  induction x with
+  | nil => simp [lastIndexOf, lastIndexOf_none b y h]
+  | cons c r ih => simp [lastIndexOf, ih]
+
+/-- TrimmedPath keeps exactly the last two path elements: `…/dir/file` ↦ `dir/file` -/
+theorem trimmed_keeps_last_two (pre dir file : Bytes) (hd : slash ∉ dir) (hf : slash ∉ file) :
+    trimmedFile (pre ++ slash :: (dir ++ slash :: file)) = dir ++ slash :: file := by
+  have e1 : pre ++ slash :: (dir ++ slash :: file) = (pre ++ slash :: dir) ++ slash :: file := by simp
+  have h1 : lastIndexOf slash (pre ++ slash :: (dir ++ slash :: file)) = some (pre ++ slash :: dir).length := by
+    rw [e1]; exact lastIndexOf_sep slash (pre ++ slash :: dir) file hf
+  have h2 : (pre ++ slash :: (dir ++ slash :: file)).take (pre ++ slash :: dir).length = pre ++ slash :: dir := by
+    rw [e1, List.take_left' rfl]
+  have h3 : lastIndexOf slash (pre ++ slash :: dir) = some pre.length := lastIndexOf_sep slash pre dir hd
+  have e2 : pre ++ slash :: (dir ++ slash :: file) = (pre ++ [slash]) ++ (dir ++ slash :: file) := by simp
+  simp only [trimmedFile, h1, h2, h3]
+  rw [e2, List.drop_left' (by simp)]
+
+/-- with fewer than two separators the full path is kept -/
+theorem trimmed_short (dir file : Bytes) (hd : slash ∉ dir) (hf : slash ∉ file) :
+    trimmedFile file = file ∧ trimmedFile (dir ++ slash :: file) = dir ++ slash :: file := by
+  constructor
+  · simp [trimmedFile, lastIndexOf_none slash file hf]
+  · have h1 := lastIndexOf_sep slash dir file hf
+    simp [trimmedFile, h1, lastIndexOf_none slash dir hd]
 
 /-! ## non-vacuity -/
 
